@@ -36,7 +36,7 @@ def build_zip(rng, epoch, opts):
     members = []
     n = opts.get("n", rng.choice([0, 1, 2, 3, 6]))
     local = b""
-    central = b""
+    centrals = []
     names_used = []
     for i in range(n):
         kind = rng.choice(["file", "file", "file", "dir", "empty", "symlink"])
@@ -98,10 +98,17 @@ def build_zip(rng, epoch, opts):
         if dd:
             local += struct.pack("<4sIII", b"PK\x07\x08", crc, len(cdata), len(data))
         comment = opts.get("member_comment", b"")
-        central += struct.pack("<4sHHHHHHIIIHHHHHII", b"PK\x01\x02", (system << 8) | 30, 20, gflags, method, time, date, crc, len(cdata), len(data), len(name), len(extra_c), len(comment),
-                               0, rng.choice([0, 1]), ext, off) + name + extra_c + comment
+        centrals.append(struct.pack("<4sHHHHHHIIIHHHHHII", b"PK\x01\x02", (system << 8) | 30, 20, gflags, method, time, date, crc, len(cdata), len(data), len(name), len(extra_c), len(comment),
+                                    0, rng.choice([0, 1]), ext, off) + name + extra_c + comment)
         members.append({"name": name, "utf8": bool(flags), "method": method, "crc": crc, "csize": len(cdata), "usize": len(data), "data": data, "cdata": cdata, "date": date, "time": time,
                         "system": system, "ext": ext, "kind": kind, "rel": rel})
+    if opts.get("shuffle_central") and len(centrals) > 1:
+        # the central directory lists the members in another order than they are stored (sorted by name, appended in place, merged jars):
+        # the directory's order is the archive's order
+        k = rng.randrange(1, len(centrals))
+        centrals = centrals[k:][::-1] + centrals[:k]
+        members = members[k:][::-1] + members[:k]
+    central = b"".join(centrals)
     zc = opts.get("comment", b"")
     prefix = opts.get("prefix", b"")
     eocd = struct.pack("<4sHHHHIIH", b"PK\x05\x06", 0, 0, n, n, len(central), len(local), len(zc)) + zc
@@ -127,7 +134,7 @@ def gen_cases(rng, tier):
         meta[cid] = members
 
     variants = [{}, {"names": "cp437"}, {"names": "utf8"}, {"data_descriptor": True}, {"extra_local": UT + UX, "extra_central": UT[:9] + UX}, {"comment": b"archive comment"},
-                {"member_comment": b"mc"}, {"jar": True}, {"n": 0}, {"extra_local": UT}, {"prefix": b"#!/bin/sh\nexit 0\n"}]
+                {"member_comment": b"mc"}, {"jar": True}, {"n": 0}, {"extra_local": UT}, {"prefix": b"#!/bin/sh\nexit 0\n"}, {"shuffle_central": True, "n": 3}, {"shuffle_central": True, "n": 6}]
     reps = 12 if tier == "quick" else 150
     for _ in range(reps):
         for v in variants:
